@@ -152,7 +152,7 @@ int main(int argc, char* argv[])
 {
     if (argc < 5)
     {
-        std::fprintf(stderr, "usage: stats_driver <out.ndjson> <seed> <exhaustive-maxlen> <random-cases>\n");
+        std::fprintf(stderr, "usage: stats_driver <out.ndjson> <seed> <exhaustive-maxlen> <random-cases> [sweep-lo sweep-hi]\n");
         return 2;
     }
     vt::Trace::get().open(argv[1]);
@@ -249,6 +249,28 @@ int main(int argc, char* argv[])
         }
         hist_case(pvalues, "exponents", {}, qs);
         stats_case(values);
+    }
+    // integer percentages whose position p (n - 1) / 100 is integral: the percentile is exactly one element of the sorted list (a position
+    // computed one ulp off would return the midpoint of two neighbours); distinct values so that neighbours differ
+    const auto sweep_lo = argc > 6 ? std::atoll(argv[5]) : 1, sweep_hi = argc > 6 ? std::atoll(argv[6]) : 0;
+    for (int64_t n = sweep_lo; n <= sweep_hi; ++n)
+    {
+        std::vector<double> values;
+        for (int64_t k = 0; k < n; ++k)
+        {
+            values.push_back(static_cast<double>(2 * k - n) / 4.0 * static_cast<double>(1 + (k % 3)));
+        }
+        for (size_t i = values.size(); i > 1; --i)
+        {
+            std::swap(values[i - 1], values[static_cast<size_t>(rng.range(0, static_cast<int64_t>(i) - 1))]);
+        }
+        for (int64_t p = 0; p <= 100; ++p)
+        {
+            if ((p * (n - 1)) % 100 == 0 || rng.coin(1, 25))
+            {
+                pct_case(values, 8 * p);
+            }
+        }
     }
     vt::put(vt::J("Pct").s("variant", "end-marker").a("vals", std::vector<int64_t>{0}).i("p8", 0).i("out2", 0));
     return 0;
